@@ -53,6 +53,7 @@ class Judge:
         self.hist = []
         self.bad = False
         self.last_new = None
+        self.zero_regions = []  # offsets of zero-size regions handed out and not given back yet
         if register:
             bufmon.listeners.append(self)
 
@@ -151,6 +152,8 @@ class Judge:
                         bufmon.poke(buf, off, data)
             else:
                 self.last_new = None
+                if size == 0 and not self.bad:
+                    self.zero_regions.append(off)
         elif op == "free":
             self.hist.append(("free", ev["off"], ev["size"]))
             w.count("frees")
@@ -227,6 +230,7 @@ def fork_judge(j, rng):
     cfg = dict(j.cfg, copied_by=how)
     j2 = Judge(w, b2, cfg, j.do04, j.do12, stamps=j.stamps)
     j2.regions = dict(j.regions)
+    j2.zero_regions = list(j.zero_regions)
     j2.next_rid = j.next_rid + 1000
     j2.hist = list(j.hist[-12:]) + [("copied", how)]
     sh = Shadow(b2.capacity)
@@ -304,6 +308,25 @@ def random_history(w, rng, do04, do12):
             j = rng.choice(js)
             buf = j.buf
             r = rng.random()
+            if rng.random() < 0.03:
+                # the buffer's default alignment is a plain attribute: a client may change it between requests; each
+                # aligned request is then served at a multiple of the alignment in force when it is made
+                buf.default_alignment = rng.choice(ALIGNS)
+                w.count("default_alignment_changed")
+                opk.append("A")
+            if rng.random() < 0.03 and j.zero_regions and not j.do12:
+                # a zero-size region handed out earlier is given back (a request like any other; no bytes change hands).
+                # Only under the C04 judge: where later zero-size requests are placed once zero-length gaps exist is not
+                # fixed by C12's statement, so the lock-step policy spec does not cover such histories.
+                z = j.zero_regions.pop(rng.randrange(len(j.zero_regions)))
+                try:
+                    buf.free(z, 0)
+                except Exception:
+                    w.count("free_raised")
+                w.count("zero_size_regions_freed")
+                opk.append("z")
+                if j.bad:
+                    break
             if r < 0.015:
                 # a request that cannot possibly be served; the caller catches the error and carries on
                 try:
